@@ -219,6 +219,63 @@ func main() {
 					meta.Record(fmt.Sprintf("%s|%d|%d|%v|%s|%s", spec, size, irKind, retry, backend, transport), nontriv,
 						map[string]any{"range": spec, "has_range": hasRange, "size": size, "if_range_kind": irKind, "retry": retry, "backend": backend, "transport": transport, "origin_chunked": chunked[path], "observed": obsShort(obs)})
 				}
+				if retry {
+					// the retry without Range meets an entry that is ALREADY STALE when it is stored (lifetime 1 s, the
+					// body takes longer): the retry is revalidated (304); the client still gets the full 200
+					caseNo++
+					path := fmt.Sprintf("/r%d", caseNo)
+					body := content(caseNo, 10)
+					etag := fmt.Sprintf("\"e%d\"", caseNo)
+					env.Cfg.Proxy.CachePolicy.ForceDefaultMaxAge.Overwrite(false) // the origin's own (short) lifetime counts
+					env.Cfg.Proxy.CachePolicy.IgnoreCacheControl.Overwrite(false)
+					env.Origin.SetHandler(func(req e2elib.OriginRequest, n int) e2elib.Answer {
+						if req.Header.Get("If-None-Match") != "" || req.Header.Get("If-Modified-Since") != "" {
+							return e2elib.NewAnswer(304, nil, "ETag: "+etag, "Cache-Control: max-age=1")
+						}
+						a := e2elib.NewAnswer(200, body, "Cache-Control: max-age=1", "ETag: "+etag, "Last-Modified: "+lastMod.Format(http.TimeFormat), "Content-Type: application/octet-stream")
+						a.Pieces, a.PieceDelay = 2, 1300*time.Millisecond // the second half leaves 1.3 s after the header
+						return a
+					})
+					spec := "bytes=50-60"
+					hs := []string{"Range: " + spec}
+					var resp *e2elib.Response
+					var rerr error
+					if tlsOn {
+						var c *e2elib.Conn
+						c, _, rerr = env.DialTunnel(env.Origin.Addr, "127.0.0.1", 8*time.Second)
+						if rerr == nil {
+							rerr = c.Send(env.TunnelRequest("GET", path, hs, nil), 5*time.Second)
+							if rerr == nil {
+								resp, rerr = c.Read("GET", 12*time.Second)
+							}
+							c.Close()
+						}
+					} else {
+						resp, rerr = env.DoPlain(env.PlainRequest("GET", path, hs, nil), "GET", 12*time.Second)
+					}
+					obs := "ONoResponse"
+					if rerr == nil && resp.BodyErr == "" {
+						cr := resp.Header.Get("Content-Range")
+						var sz int64
+						switch {
+						case resp.Status == 416:
+							if n, _ := fmt.Sscanf(cr, "bytes */%d", &sz); n == 1 {
+								obs = fmt.Sprintf("(O416 %s)", emit.Z(sz))
+							} else {
+								obs = "(OOther 416)"
+							}
+						case resp.Status >= 200 && resp.Status < 300 && resp.Status != 206:
+							obs = fmt.Sprintf("(OFull %d %s %s %s)", resp.Status, emit.Z(int64(len(resp.Body))), emit.Bytes(resp.Body), emit.Bool(cr != ""))
+						default:
+							obs = fmt.Sprintf("(OOther %d)", resp.Status)
+						}
+					}
+					st := fmt.Sprintf("{| st_size := 10; st_etag := %s; st_lastmod := %s |}", emit.Str(etag), emit.Z(lastMod.Unix()))
+					w.Add(fmt.Sprintf("EC true (Some %s) IRNone %s %s %s", emit.Str(spec), st, emit.Bytes(body), obs))
+					meta.Count("retry_meets_stale_entry", backend)
+					meta.Record(fmt.Sprintf("stale-retry|%s|%v", backend, tlsOn), true,
+						map[string]any{"range": spec, "size": 10, "retry": true, "backend": backend, "origin_body_slower_than_lifetime": true, "observed": obsShort(obs)})
+				}
 				env.Close()
 				os.RemoveAll(dir)
 			}
